@@ -24,11 +24,19 @@ func docAuthentic(w *collateralWorld, d *doc, tNow interface{ Unix() int64 }) (s
 
 func h03(nTrusted, k, m int) { h03o(nTrusted, k, m, false) }
 
-func h03o(nTrusted, k, m int, omissions bool) {
-	w := mkCollateralWorldOpt(nTrusted, k, m, 1, 0, 0, omissions)
+func h03o(nTrusted, k, m int, omissions bool) { h03r(nTrusted, k, m, omissions, false) }
+
+// rev: revocation checking on as well (CRLs present in the world): the collateral documents are
+// authenticated by the same code, which then goes on to the CRL checks.
+func h03r(nTrusted, k, m int, omissions, rev bool) {
+	nDist := 0
+	if rev {
+		nDist = 1
+	}
+	w := mkCollateralWorldOpt(nTrusted, k, m, 1, nDist, 0, omissions)
 	quote := mkQuote(w.pki, 32)
 	now := symTimeSet("t")
-	opts := &Options{GetCollateral: true, Getter: w.getter, TrustedRoots: w.pool, Now: now}
+	opts := &Options{GetCollateral: true, CheckRevocations: rev, Getter: w.getter, TrustedRoots: w.pool, Now: now}
 	err := TdxQuote(quote, opts)
 	if k > 0 {
 		vp.Reach("accept", err == nil)
@@ -66,6 +74,9 @@ func h03o(nTrusted, k, m int, omissions bool) {
 func H03a_embedded_k1()  { h03(0, 1, 0) }
 func H03b_pool1_k1_m1()  { h03(1, 1, 1) }
 func H03c_k0()           { h03(0, 0, 0) }
+
+// H03h: the same with revocation checking on.
+func H03h_WithRevocationChecking() { h03r(0, 1, 0, false, true) }
 
 // H03f: signed documents that do not mention every member (absent members are zero values, never left-overs).
 func H03f_SignedMemberOmitsFields() { h03o(0, 1, 1, true) }
